@@ -60,9 +60,20 @@ impl StyleSheetOutput {
 
     pub(crate) fn append_token(&mut self, token: StepToken, src: Option<Token>) {
         let next_ser_type = token.serialization_type();
-        if self
-            .prev_ser_type
-            .needs_separator_when_before(next_ser_type)
+        // `cssparser` does not list `-->` after these types, although `1-->`, `--->`, `#-->`
+        // and `@-->` would be re-parsed as a single token
+        let cdc_needs_separator = next_ser_type == TokenSerializationType::CDC
+            && matches!(
+                self.prev_ser_type,
+                TokenSerializationType::Number
+                    | TokenSerializationType::DelimMinus
+                    | TokenSerializationType::DelimHash
+                    | TokenSerializationType::DelimAt
+            );
+        if cdc_needs_separator
+            || self
+                .prev_ser_type
+                .needs_separator_when_before(next_ser_type)
         {
             write!(&mut self.s, " ").unwrap();
             self.utf16_len += 1;
